@@ -152,15 +152,6 @@ def trigF04d (ver : Nat) (rows : List Row) (spec : Tree) : Bool :=
          (ver == 20 && (match firstTok r with | some (.atom 2 _) => true | _ => false)))
     | _ => false) spec
 
-/-- F04o trigger: the tree has an arrow whose function specifier is a parenthesised expression that contains a
-static function call (operand kinds 10, 11: `x => (concat('a', 'b'))(1)`) or a sequence type (`x => (1 instance of
-node())(1)`: kind tests are written like calls) -/
-def trigF04o (t : Tree) : Bool :=
-  anyNode (fun t => match t with
-    | .arrow _ _ (.group _ _ e) _ =>
-        anyNode (fun n => match n with | .atom k _ => k == 10 || k == 11 | .typed .. => true | _ => false) e
-    | _ => false) t
-
 /-! #### which laxities the pinned code has (F04b) -/
 
 /-- guard classes of the optional-once operators: an operator rejects a left operand whose top operator
